@@ -28,11 +28,11 @@ def run(tier, seed, scale, verif):
     shapes = set()
     samples = []
     inconclusive = []
-    nruns = int((3 if tier == "quick" else 20) * scale) or 1
+    nruns = int((8 if tier == "quick" else 60) * scale) or 1
     for run_i in range(nruns):
         wd = os.path.join(base, "r%d" % run_i)
         sent = []  # RecordKind JSON values, in order
-        nsessions = rng.randint(2, 4)
+        nsessions = rng.randint(2, 5)
         try:
             for sess in range(nsessions):
                 s = Server(wd)
@@ -49,7 +49,9 @@ def run(tier, seed, scale, verif):
                             if isinstance(c, dict) and c.get("command") == "HarperRecordLint":
                                 cmds.append(c["arguments"])
                 rng.shuffle(cmds)
-                for args in cmds[: rng.randint(1, 5)]:
+                # some sessions apply nothing at all (also the very first one: the log then exists but is empty)
+                quiet = rng.random() < 0.3
+                for args in cmds[: 0 if quiet else rng.randint(1, 5)]:
                     s.command("HarperRecordLint", args)
                     sent.append(json.loads(args[0]))
                 stats_path = s.stats_path
